@@ -321,6 +321,7 @@ def eval_core(core, ctx, outer_env, q):
             continue
           new.append((gg, env.extend(item[2], {'value': x})))
     combos = new
+    V.check_budget(len(combos))
   if sel['where'] is not None:
     new = []
     for g, env in combos:
